@@ -274,6 +274,19 @@ impl<'tcx> Cx<'tcx> {
                     }
                 }
                 ConstValue::Indirect { alloc_id, offset } => {
+                    let is_bytes_ref = match cty.kind() {
+                        TyKind::Ref(_, inner, _) => match inner.kind() {
+                            TyKind::Str => true,
+                            TyKind::Slice(e) => *e == tcx.types.u8,
+                            _ => false,
+                        },
+                        _ => false,
+                    };
+                    if is_bytes_ref {
+                        if let Some(b) = val.try_get_slice_bytes_for_diagnostics(tcx) {
+                            o.push(("bytes", V::A(b.iter().map(|x| V::I(*x as i128)).collect())));
+                        }
+                    }
                     if let TyKind::Array(elem, n) = cty.kind() {
                         if *elem == tcx.types.u8 {
                             if let Some(n) = n.try_to_target_usize(tcx) {
